@@ -711,8 +711,9 @@ def has_individual_clocks(program):
 
 
 def exact_constant_step(program):
-    """The global step is constant AND clock arithmetic is exact (Timedelta ns, or dyadic SimpleClock numbers): the
-    precondition under which InteractiveContext.run/run_until/run_for take the same steps as run()."""
+    """The global step is constant AND clock arithmetic is exact (Timedelta ns, or dyadic SimpleClock numbers): only then
+    is the number of remaining steps known in advance (used to size take_steps(n) chunks; InteractiveContext.run/
+    run_until/run_for need no such precondition since /repo 98b7435f)."""
     if has_individual_clocks(program):
         return False
     if program["clock"] == "simple":
